@@ -10,9 +10,9 @@ export CARGO_NET_OFFLINE=true
 git diff -- src Cargo.toml > /tmp/seed/$name.patch
 [ -s /tmp/seed/$name.patch ] || { echo "no change in src"; exit 2; }
 cargo test --offline $feat --test seed_demo > /tmp/seed/$name.demo_with.log 2>&1; rc_with=$?
-git stash push -q -- src Cargo.toml
+git apply -R /tmp/seed/$name.patch   # (git stash is shared between worktrees: not used)
 cargo test --offline $feat --test seed_demo > /tmp/seed/$name.demo_without.log 2>&1; rc_without=$?
-git stash pop -q
+git apply /tmp/seed/$name.patch
 mkdir -p /tmp/seed/hold; mv tests/seed_demo.rs /tmp/seed/hold/$name.seed_demo.rs
 cargo nextest run --workspace --no-fail-fast --offline > /tmp/seed/$name.suite.log 2>&1; rc_suite=$?
 mv /tmp/seed/hold/$name.seed_demo.rs tests/seed_demo.rs
